@@ -1,13 +1,13 @@
 package main
 
 import (
-	"sync"
 	"encoding/json"
 	"flag"
 	"fmt"
 	"os"
 	"sort"
 	"strings"
+	"sync"
 	"time"
 )
 
